@@ -420,7 +420,12 @@ def fresh_key(kind):
     return None
 
 
+STUCK = [False]      # a scheduled run left threads blocked (possibly holding factory locks): no further thread scenarios in this shard
+
+
 def scheduled_race(ctx, tz, kind, ntasks, policy, label, sigs, neighbours=0):
+    if STUCK[0]:
+        return
     if kind == 'tzoffset':
         key = fresh_key(kind)
         others = [fresh_key(kind) for _ in range(neighbours)]
@@ -473,6 +478,7 @@ def scheduled_race(ctx, tz, kind, ntasks, policy, label, sigs, neighbours=0):
     case = {'scenario': 'factory-race', 'factory': kind, 'tasks': ntasks, 'neighbours': neighbours, 'policy': label,
             'schedule': [(a, b, str(c), d) for a, b, c, d in s.trace][:300]}
     if not completed:
+        STUCK[0] = True
         ctx.inconclusive_because('scheduler did not complete a run')
         return
     if s.aborted:
@@ -497,6 +503,8 @@ def scheduled_race(ctx, tz, kind, ntasks, policy, label, sigs, neighbours=0):
 def scheduled_clear(ctx, tz, policy, label, sigs):
     """gettz requests racing with cache_clear(): every request that ends after the clear has finished must return the
     same object, and the factory must still use the lock it was created with."""
+    if STUCK[0]:
+        return
     names = [n for n in ('Europe/Paris', 'Europe/Madrid', 'Asia/Seoul', 'America/Denver') if os.path.exists('/usr/share/zoneinfo/' + n)]
     if not names:
         return
@@ -535,10 +543,12 @@ def scheduled_clear(ctx, tz, policy, label, sigs):
     ctx.distinct('sched|gettz-clear|%s' % s.signature())
     case = {'scenario': 'gettz-cache-clear-race', 'policy': label, 'schedule': [(a, b, str(c), d) for a, b, c, d in s.trace][:300]}
     if replaced:
+        STUCK[0] = True
         ctx.violation('factory-lock-replaced', case, 'gettz no longer uses the lock object it had when the run started: threads waiting on the '
                                                      'old lock and new arrivals are no longer mutually exclusive')
         return
     if not completed:
+        STUCK[0] = True
         ctx.inconclusive_because('scheduler did not complete a cache_clear run')
         return
     if s.deadlock:
@@ -573,6 +583,8 @@ def scheduled_drop(ctx, tz, kind, policy, label, sigs):
     """a request for a key whose only live reference is dropped by another thread while the request is inside the
     factory (the object is no longer in the strong cache, so it dies at that moment): the request must still
     return a zone for the key - never an exception, never a dead or foreign object"""
+    if STUCK[0]:
+        return
     import gc
     if kind == 'tzoffset':
         key = fresh_key(kind)
@@ -610,6 +622,7 @@ def scheduled_drop(ctx, tz, kind, policy, label, sigs):
     case = {'scenario': 'reference-dropped-during-request', 'factory': kind, 'policy': label,
             'schedule': [(a, b, str(c), d) for a, b, c, d in s.trace][:300]}
     if not completed:
+        STUCK[0] = True
         ctx.inconclusive_because('scheduler did not complete a drop run')
         return
     if s.deadlock:
@@ -632,6 +645,8 @@ def scheduled_drop(ctx, tz, kind, policy, label, sigs):
 def scheduled_trim(ctx, tz, policy, label, sigs):
     """gettz requests that make the strong cache overflow (size 1, several names) racing with cache_clear() /
     set_cache_size(0): cache maintenance only affects retention - no request may raise, every result is the zone asked for"""
+    if STUCK[0]:
+        return
     names = [n for n in ('Europe/Paris', 'Europe/Madrid', 'Asia/Seoul', 'America/Denver') if os.path.exists('/usr/share/zoneinfo/' + n)]
     if len(names) < 3:
         return
@@ -659,7 +674,8 @@ def scheduled_trim(ctx, tz, policy, label, sigs):
     finally:
         s.uninstall()
         g._cache_lock = real
-        g.set_cache_size(8)
+        if not (s.deadlock or s.aborted) and all(not t.is_alive() for t in getattr(s, 'threads', [])):
+            g.set_cache_size(8)
     ctx.ev()
     ctx.count('scheduled_runs_gettz_trim')
     sigs.add(('trim', s.signature()))
@@ -667,6 +683,7 @@ def scheduled_trim(ctx, tz, policy, label, sigs):
     case = {'scenario': 'gettz-trim-vs-' + ('cache_clear' if variant else 'set_cache_size(0)'), 'policy': label,
             'schedule': [(a, b, str(c), d) for a, b, c, d in s.trace][:300]}
     if not completed:
+        STUCK[0] = True
         ctx.inconclusive_because('scheduler did not complete a trim run')
         return
     if s.deadlock:
@@ -685,6 +702,8 @@ def scheduled_trim(ctx, tz, policy, label, sigs):
 
 
 def free_running(ctx, tz, rounds, nthreads):
+    if STUCK[0]:
+        return
     guards, unguard = locks.install_guards(locks.tz_factory_locks())
     sys.setswitchinterval(1e-6)
     try:
